@@ -18,6 +18,19 @@ class Gen:
         self.r = r
         self.n = 0
         self.cond = 0
+        # one script in three carries quoted `#` characters inside block heads (a head is taken verbatim up to the line end or `; then`;
+        # unquoted `#`, `a#b` and `\\#` are cut by the line-level comment rule when the head is run, which is not this property's matter)
+        self.hashy = r.chance(1, 3)
+        self.deco = {}
+
+    def newcond(self):
+        self.cond += 1
+        if self.hashy and self.r.chance(1, 2):
+            self.deco[self.cond] = self.r.choice([" '#'", ' "#"', " '#x y'", " '# fi'", " '#'"])
+        return self.cond
+
+    def ctext(self, c):
+        return "cond %d%s" % (c, self.deco.get(c, ""))
 
     def block(self, depth, in_loop, budget):
         k = 1 + self.r.below(3)
@@ -50,18 +63,16 @@ class Gen:
         if k == "if":
             arms = []
             for _ in range(1 + r.below(4)):
-                self.cond += 1
-                arms.append((self.cond, self.block(depth - 1, in_loop, budget)))
+                arms.append((self.newcond(), self.block(depth - 1, in_loop, budget)))
             els = self.block(depth - 1, in_loop, budget) if r.chance(1, 2) else None
             return ("if", arms, els)
         if k == "for":
             words = ["w%d" % i for i in range(r.below(5))]
             return ("for", "v%d" % r.below(3), words, self.block(depth - 1, True, budget))
-        self.cond += 1
-        return ("while", self.cond, self.block(depth - 1, True, budget))
+        return ("while", self.newcond(), self.block(depth - 1, True, budget))
 
 
-def render(block, style, r, ind=0):
+def render(block, style, r, ind=0, ct=lambda c: "cond %d" % c):
     """style: 'nl' or 'semi'"""
     out = []
     pad = lambda: " " * (ind if r is None else (ind + (r.below(3) if r.chance(1, 4) else 0)))
@@ -75,24 +86,24 @@ def render(block, style, r, ind=0):
         elif s[0] == "if":
             for i, (c, b) in enumerate(s[1]):
                 kw = "if" if i == 0 else "else if"
-                out.append(pad() + "%s cond %d%s" % (kw, c, "; then" if style == "semi" else ""))
-                out += render(b, style, r, ind + 4)
+                out.append(pad() + "%s %s%s" % (kw, ct(c), "; then" if style == "semi" else ""))
+                out += render(b, style, r, ind + 4, ct)
             if s[2] is not None:
                 out.append(pad() + "else")
-                out += render(s[2], style, r, ind + 4)
+                out += render(s[2], style, r, ind + 4, ct)
             out.append(pad() + "fi")
         elif s[0] == "for":
             out.append(pad() + "for %s in %s%s" % (s[1], " ".join(s[2]) if s[2] else "$EMPTY", "; do" if style == "semi" else ""))
-            out += render(s[3], style, r, ind + 4)
+            out += render(s[3], style, r, ind + 4, ct)
             out.append(pad() + "done")
         elif s[0] == "while":
-            out.append(pad() + "while cond %d%s" % (s[1], "; do" if style == "semi" else ""))
-            out += render(s[2], style, r, ind + 4)
+            out.append(pad() + "while %s%s" % (ct(s[1]), "; do" if style == "semi" else ""))
+            out += render(s[2], style, r, ind + 4, ct)
             out.append(pad() + "done")
     return out
 
 
-def wire(block):
+def wire(block, ct=lambda c: "cond %d" % c):
     out = []
     for st in block:
         if st[0] == "cmd":
@@ -104,13 +115,13 @@ def wire(block):
         elif st[0] == "if":
             out.append("i")
             for c, b in st[1]:
-                out += ["t", hx("cond %d" % c), "{"] + wire(b) + ["}"]
+                out += ["t", hx(ct(c)), "{"] + wire(b, ct) + ["}"]
             if st[2] is not None:
-                out += ["e", "{"] + wire(st[2]) + ["}"]
+                out += ["e", "{"] + wire(st[2], ct) + ["}"]
         elif st[0] == "for":
-            out += ["f", hx(st[1]), hx(" ".join(st[2]) if st[2] else "$EMPTY"), "{"] + wire(st[3]) + ["}"]
+            out += ["f", hx(st[1]), hx(" ".join(st[2]) if st[2] else "$EMPTY"), "{"] + wire(st[3], ct) + ["}"]
         elif st[0] == "while":
-            out += ["w", hx("cond %d" % st[1]), "{"] + wire(st[2]) + ["}"]
+            out += ["w", hx(ct(st[1])), "{"] + wire(st[2], ct) + ["}"]
     return out
 
 
@@ -123,23 +134,23 @@ def generate(tier, rng):
         g = Gen(r)
         b = g.block(1 + r.below(4), False, [30])
         style = r.choice(["nl", "semi"])
-        text = "\n".join(render(b, style, r)) + "\n"
+        text = "\n".join(render(b, style, r, 0, g.ctext)) + "\n"
         seq = {}
         for c in range(1, g.cond + 1):
             k = r.below(4)
-            seq["cond %d" % c] = [0] * k + [r.choice([1, 1, 2, 127])]
+            seq[g.ctext(c)] = [0] * k + [r.choice([1, 1, 2, 127])]
         for n_ in range(1, g.n + 1):
             if r.chance(1, 4):
                 seq["stage %d 0" % n_] = [r.choice([0, 1, 3])]
         seqf = ",".join(hx(k) + ":" + ".".join(str(x) for x in v) for k, v in seq.items()) or "[]"
         env = gens.env_field(exported={"HOME": "/h"})
         cases.append(Case("srun", [env, hx(text), ",".join(hx(x) for x in ["cicada", "s.sh", "A1"]), seqf, ",".join(hx(x) for x in ["v0", "v1", "v2"]),
-                                   " ".join(wire(b))], {"gen": "run", "t": text}))
+                                   " ".join(wire(b, g.ctext))], {"gen": "run", "t": text}))
     n = 6000 if tier == "quick" else 100000
     for i in range(n):
         g = Gen(r)
         b = g.block(1 + r.below(4), False, [30])
-        lines = render(b, r.choice(["nl", "semi"]), r)
+        lines = render(b, r.choice(["nl", "semi"]), r, 0, g.ctext)
         text = "\n".join(lines) + ("\n" if r.chance(5, 6) else "")
         kind = "ok"
         if r.chance(1, 5):
@@ -155,7 +166,8 @@ def generate(tier, rng):
             kind = "mut"
         cases.append(Case("ptree", [hx(text)], {"gen": kind, "t": text}))
     soup = ["if a", "if a; then", "fi", "else", "else if b", "for x in 1 2", "for x in 1; do", "done", "while c", "while c; do", "cmd", "  cmd x ", "", " ", "\t",
-            "if", "fix", "done.", "elsewhere", "for x", "forx in y", "if a ;  then", "if a;then", "echo ; then", "break", "continue", "é", "if a; do", "while b; then"]
+            "if", "fix", "done.", "elsewhere", "for x", "forx in y", "if a ;  then", "if a;then", "echo ; then", "break", "continue", "é", "if a; do", "while b; then",
+            "if a '#' b", "if a \"#\"; then", "while c '#x'", "for x in 1 '#' 2", "for x in a#b; do", "else if b '#'", "cmd # x", "echo '#'", "fi # x", "done #", "else #"]
     for _ in range(n):
         k = 1 + r.below(7)
         text = "\n".join(r.choice(soup) for _ in range(k)) + r.choice(["\n", "", "\n\n", " "])
@@ -180,6 +192,7 @@ def process(tier, rng, cicada):
     cases = []
     for i in range(n):
         g = Gen(r)
+        g.hashy = False     # the condition helper takes exactly one argument
         b = g.block(1 + r.below(4), False, [25])
         text = "\n".join(render(b, r.choice(["nl", "semi"]), r)) + "\n"
         seq = {}
